@@ -546,9 +546,9 @@ func (c *Client) ReadMsg(b []byte) (n int, err error) {
 		}
 	case clientStateError:
 		return 0, c.err
-	case clientStateClosing:
-		return 0, io.EOF
-	case clientStateClosed:
+	case clientStateClosing, clientStateClosed:
+		// Data received before the close is still returned before io.EOF, also
+		// while Close is in progress: wait for it to finish, then drain.
 		<-c.closeDone
 		if c.ss == nil || c.ss.handle == nil {
 			return 0, io.EOF
@@ -566,9 +566,9 @@ func (c *Client) Read(b []byte) (n int, err error) {
 		}
 	case clientStateError:
 		return 0, c.err
-	case clientStateClosing:
-		return 0, io.EOF
-	case clientStateClosed:
+	case clientStateClosing, clientStateClosed:
+		// Data received before the close is still returned before io.EOF, also
+		// while Close is in progress: wait for it to finish, then drain.
 		<-c.closeDone
 		if c.ss == nil || c.ss.handle == nil {
 			return 0, io.EOF
